@@ -6,7 +6,7 @@ For each seeded change: apply patch.diff to /repo (git apply), run the pinned te
 run the quick check of the property it targets (and, with --all, every quick check), then revert /repo
 (git checkout -- .). /repo must be clean when this starts. Nothing is ever committed to /repo.
 
-usage: tools/seeded.py [--all] [--tier=thorough] [--repo=<scratch worktree>] [name ...]
+usage: tools/seeded.py [--all] [--tier=thorough] [--repo=<scratch worktree>] [--readme=<file>] [name ...]
 With --repo the patches are applied to that scratch checkout instead of /repo and the checks are pointed at it
 (VERIF_REPO / PYTHONPATH), so that /repo itself stays untouched; README.md is rewritten by a run over all changes.
 """
@@ -88,7 +88,11 @@ def main():
         c = ", ".join(f"{k}: exit {v['rc']} ({v['violation_classes']} classes)" for k, v in caught.items())
         sig = next((v["first_signature"] for v in caught.values() if v["first_signature"]), "")
         lines.append(f"| {name} | {meta['property']} | {meta.get('needs', '')} | {tests} | {demo} | {c} | `{sig}` |")
-    if not args:
+    readme = [a.split("=", 1)[1] for a in sys.argv[1:] if a.startswith("--readme=")]
+    if readme:
+        # --readme=<file>: write the table for the given names to that file (tools/seeded_readme.py stitches such parts)
+        open(readme[0], "w").write("\n".join(lines) + "\n")
+    elif not args:
         open(os.path.join(VERIF, "seeded", "README.md"), "w").write("\n".join(lines) + "\n")
     missed = [r[0] for r in rows if r[3] and not any(v["rc"] == 1 for v in r[3].values())]
     print("missed:", missed)
